@@ -25,13 +25,17 @@ LOCALS = [b"bob", b"b.o", b"ab", b"a%b+c", b"x_y", b"B-0"]
 MAIL_DOMS = [b".com", b"..org", b"example.org", b"a.co", b"x.y.international", b"a-b.xn--p1ai", b"a.notatld", b"1.2.3.4", b"a.com0"]
 
 
+EXTRA_HOSTS = [b"", b"a", b"%zz.com", b".com", b"%2Einfo", b"..com", b".a.com", b"a..com", b"-.org", b"....", b"com.", b"[::1%47]", b"[fe80::1%25eth0]", b"[::1%2541]"]
+URL_PATHS = (b"", b"/", b"/%41/%2f/..%zz", b"/%4%41", b"/%%37E/x", b"/%%34%31")
+
+
 def describe(tier):
     return {
         "rule": (
             "Forward monitor on EVERY node typed network.ip / network.domain / network.email / network.url (i) in every scan tree of the "
             f"{STREAM_FAMS} scan-level families (all token sequences up to the family bound), (ii) returned by find_ips on every 4-tuple of octet spellings "
             f"{[o.decode() for o in OCTETS]} x {len(IP_PRE)} prefixes x {len(IP_SUF)} suffixes, by find_domains on EVERY entry of TOP_LEVEL_DOMAINS x {len(LABELS)} label shapes x "
-            f"{len(DOM_PRE)}x{len(DOM_SUF)} neighbours, by find_emails on {len(LOCALS)}x{len(MAIL_DOMS)} addresses x neighbours, and by find_urls on the URL grammar of C12. "
+            f"{len(DOM_PRE)}x{len(DOM_SUF)} neighbours, by find_emails on {len(LOCALS)}x{len(MAIL_DOMS)} addresses x neighbours, and by find_urls on the URL grammar of C12 (incl. nested escapes such as %4%41 whose normal form contains a new escape); every reported URL value is fed back to the decoder in the same process and validated again. "
             "Validators written from the statement: canonical dotted quad by integer parsing (free-text IP: value == covered text); domain = non-empty name + '.' + "
             "registered TLD (free text: only letters/digits/hyphen/dot, >= 7 characters); e-mail = local@such-a-domain; URL: scheme in {http,https,ftp} ignoring "
             "case, non-empty host, value == own percent-normalisation of the covered text, label escape.percent iff that shortened it. "
@@ -124,7 +128,7 @@ def stream_monitor(rec, case):
         rec.mark("nontrivial", case.data)
 
 
-def call(rec, fn, data, w):
+def call(rec, fn, data, w, refeed=True):
     rec.count("evaluations")
     rec.mark("states", data, True)
     ok, hits = rec.guard("C10.total", w, len(data), fn, data)
@@ -138,6 +142,9 @@ def call(rec, fn, data, w):
         for c in n.children:
             if c.type in NET_TYPES:
                 validate(rec, c, None, False, w, len(data))
+        if n.type == "network.url" and refeed and n.value != data:
+            # the reported value is itself text: feeding it back must report it with ITS normal form (one more pass may shorten it again)
+            call(rec, fn, n.value, dict(w, refed=n.value), refeed=False)
 
 
 def run_unit(unit, rec):
@@ -173,7 +180,7 @@ def run_unit(unit, rec):
         schemes = c12.SCHEMES + [b"gopher", b"HTTPX", b"ftps", b"file"]
         half = len(schemes) // 2
         for scheme in (schemes[:half] if unit[1] == 0 else schemes[half:]):
-            for ui, host, port, path, q, f, e in itertools.product(c12.USERINFO, c12.HOSTS + [b"", b"a", b"%zz.com", b".com", b"%2Einfo", b"..com", b".a.com", b"a..com", b"-.org", b"....", b"com.", b"[::1%47]", b"[fe80::1%25eth0]", b"[::1%2541]"], c12.PORTS, (b"", b"/", b"/%41/%2f/..%zz"), c12.QUERIES, c12.FRAGS, c12.EMBED):
+            for ui, host, port, path, q, f, e in itertools.product(c12.USERINFO[:6], c12.HOSTS + EXTRA_HOSTS, c12.PORTS[:2], URL_PATHS, c12.QUERIES[:3:2], c12.FRAGS[:3:2], c12.EMBED[:2]):
                 url = scheme + b"://" + ui + host + port + path + q + f
                 data = c12.embed(url, e)
                 call(rec, network.find_urls, data, {"kind": "call", "fn": "find_urls", "data": data})
